@@ -15,6 +15,7 @@ import snowflake.connector.errors
 import sqlglot
 from duckdb import DuckDBPyConnection
 from snowflake.connector.cursor import ResultMetadata
+from snowflake.connector.errorcode import ER_NOT_POSITIVE_SIZE
 from snowflake.connector.result_batch import ResultBatch
 from sqlglot import exp, parse_one
 from typing_extensions import Self
@@ -488,7 +489,13 @@ class FakeSnowflakeCursor:
 
     def fetchmany(self, size: int | None = None) -> list[tuple] | list[dict]:
         # https://peps.python.org/pep-0249/#fetchmany
-        size = size or self._arraysize
+        if size is None:
+            size = self._arraysize
+        if size < 0:
+            # as the connector does; a negative size would also move the fetch position backwards
+            raise snowflake.connector.errors.ProgrammingError(
+                msg=f"The number of rows is not zero or positive number: {size}", errno=ER_NOT_POSITIVE_SIZE
+            )
 
         if self._arrow_table is None:
             # mimic snowflake python connector error type
